@@ -100,6 +100,7 @@ def _table(kw, what):
             raise Unsupported("%s: bad gap symbol" % what)
         gapbit = 1 << k
     table = {}
+    memtab = {}      # multi-state symbol -> member symbols exactly as the source lists them (not derived from the masks)
 
     def put(sym, full, miss):
         if len(sym) != 1 or ord(sym) > 126 or ord(sym) < 33:
@@ -121,6 +122,7 @@ def _table(kw, what):
     if nodata:
         for v in variants(nodata):
             put(v, allfund | gapbit, allfund)
+            memtab[v] = list(fund) + ([gap] if gap else [])      # member_states=self._fundamental_states (gap included)
     full_of = {s: index[s] for s in fund}
     if gap:
         full_of[gap] = gapbit
@@ -136,12 +138,19 @@ def _table(kw, what):
             m |= full_of[c2]
         for v in variants(sym):
             put(v, m, m & ~gapbit if nodata else m)
+            memtab[v] = [c if c in full_of else c.upper() for c in members_of(ent)]
         full_of[sym] = m
     for s, ref in sorted(syn.items()):
         if ref not in table:
             raise Unsupported("%s: synonym %r of unknown symbol %r" % (what, s, ref))
         put(s, *table[ref])
-    return table
+        if ref in memtab:
+            memtab[s] = list(memtab[ref])
+    return table, memtab, list(fund) + ([gap] if gap else [])
+
+
+def members_of(ent):
+    return list(ent[1])
 
 
 def generate(repo):
@@ -153,17 +162,24 @@ def generate(repo):
     rows = []
     for name, cls in CLASSES:
         fn = find_function(tree, cls + ".__init__")
-        tab = _table(_alphabet_args(fn, cls, "__init__"), cls)
-        rows.append((name, tab))
+        rows.append((name,) + _table(_alphabet_args(fn, cls, "__init__"), cls))
     fn = find_function(tree, "new_standard_state_alphabet")
     kw = _alphabet_args(fn, "new_standard_state_alphabet", "StateAlphabet")
     if "fundamental_states" not in kw:
         kw["fundamental_states"] = None
     # fundamental_states=fundamental_state_symbols whose default is set by the `if ... is None` branch
-    rows.append(("standard", _table(kw, "new_standard_state_alphabet")))
-    for i, (name, tab) in enumerate(rows):
+    rows.append(("standard",) + _table(kw, "new_standard_state_alphabet"))
+    for i, (name, tab, _mem, _fo) in enumerate(rows):
         ents = ", ".join("(%d, %d, %d)" % (ord(s), tab[s][0], tab[s][1]) for s in sorted(tab))
         out.append('  ("%s", [%s])%s' % (name, ents, "," if i + 1 < len(rows) else ""))
+    out.append("]")
+    out.append("")
+    out.append("/-- per alphabet: the fundamental symbols in index order (the gap state last), and for every multi-state symbol (ambiguity")
+    out.append("    codes, the missing-data symbol, their case variants and synonyms) the member symbols as the source lists them -/")
+    out.append("def members : List (String × List Nat × List (Nat × List Nat)) := [")
+    for i, (name, tab, mem, fo) in enumerate(rows):
+        ents = ", ".join("(%d, [%s])" % (ord(s), ", ".join(str(ord(c)) for c in mem[s])) for s in sorted(mem))
+        out.append('  ("%s", [%s], [%s])%s' % (name, ", ".join(str(ord(c)) for c in fo), ents, "," if i + 1 < len(rows) else ""))
     out.append("]")
     out.append("")
     out.append("end DendroModel.C16Alphabets")
